@@ -4,6 +4,9 @@
 From Coq Require Import List NArith Bool.
 From SV Require Import lib.Bytes model.Graph model.GraphInv model.GraphDump model.Noop gen.GenNoop
   proofs.NoopProofs proofs.NoopBridge proofs.NoopCone2.
+(* the engine model of C01 (digests, skip check, plan edits) and the executed-cone statements on it:
+   Required, not Imported (model/Engine.v and model/Graph.v share names), used qualified *)
+From SV Require model.Engine model.NoopExec proofs.NoopExecProofs.
 Import ListNotations.
 Open Scope N_scope.
 
@@ -407,3 +410,103 @@ Example C04_example_rebuild_with_plan_rerun :
   executed ExR.ops ExR.q = [ExR.plan; ExR.w] /\ dispatched ExR.ops = [ExR.plan; ExR.plan; ExR.t; ExR.w] /\
   attached (KStep, ExR.u) (run_ops ExR.ops ExR.q) = false.
 Proof. exact ExR_example. Qed.
+
+(* ------------------------------------------------------------------------------------------ *)
+(* The second sentence about EXECUTED steps (not merely checked and skipped), on the engine      *)
+(* model/Engine.v: stored digests (traces), the skip check of try_skip_job, pending propagation, *)
+(* plan edits with recycling.  model/NoopExec.v has the definitions:                             *)
+(*   ran proj y1 id        the build starting in y1 executes the command of step id              *)
+(*   exec_cause proj y y1 z s   the step was not up to date before (PENDING in y), or consumes   *)
+(*                         a source whose content differs (y1 vs y), or tracks a variable whose  *)
+(*                         value differs, or consumes an output of ANOTHER EXECUTED step whose   *)
+(*                         content after the rebuild (z) differs from the one before (y)         *)
+(* ------------------------------------------------------------------------------------------ *)
+
+(* For ALL histories of (plan, world) pairs from an empty .stepup (plans add, drop, redefine steps,
+   sources / static declarations / variables change arbitrarily), then one more rebuild with plan
+   P' in world w: every EXECUTED step was declared anew or redefined by the rerun plan (not fully
+   recycled), or has a cause.  Steps of recycled (nested) sub-plans are [kept]. *)
+Theorem C04_exec_cone_histories :
+  forall (run : N -> list (option N) -> list (option N) -> N -> N)
+         (hist : list (Engine.project * Engine.world)) (P' : Engine.project) (w : Engine.world)
+         (s : Engine.step),
+    (forall pw, In pw hist -> Engine.wf (fst pw) = true) -> Engine.wf P' = true -> In s P' ->
+    let P := fst (Engine.run_dyn run hist) in
+    let y := snd (Engine.run_dyn run hist) in
+    NoopExec.ran run P' (Engine.resync P' (Engine.retarget P P' y) w) (Engine.sid s) ->
+    Engine.kept P P' (Engine.sid s) = false \/
+    NoopExec.exec_cause run P' y (Engine.resync P' (Engine.retarget P P' y) w)
+                        (Engine.rebuild_dyn run P y P' w) s.
+Proof. exact NoopExecProofs.exec_cone_histories. Qed.
+
+(* The same from any state that satisfies the invariant Pre of the engine (C01: holds after every
+   build of every history). *)
+Theorem C04_exec_cone_replan :
+  forall (run : N -> list (option N) -> list (option N) -> N -> N)
+         (P P' : Engine.project) (y : Engine.sys) (w : Engine.world) (s : Engine.step),
+    Engine.wf P' = true -> Engine.Pre run P y -> In s P' ->
+    NoopExec.ran run P' (Engine.resync P' (Engine.retarget P P' y) w) (Engine.sid s) ->
+    Engine.kept P P' (Engine.sid s) = false \/
+    NoopExec.exec_cause run P' y (Engine.resync P' (Engine.retarget P P' y) w)
+                        (Engine.rebuild_dyn run P y P' w) s.
+Proof. exact NoopExecProofs.exec_cone_replan. Qed.
+
+(* Fixed plan, restart flavour: any set of sources and variables changed at once. *)
+Theorem C04_exec_cone_restart :
+  forall (run : N -> list (option N) -> list (option N) -> N -> N)
+         (proj : Engine.project) (y : Engine.sys) (w : Engine.world) (s : Engine.step),
+    Engine.wf proj = true -> Engine.Pre run proj y -> In s proj ->
+    NoopExec.ran run proj (Engine.resync proj y w) (Engine.sid s) ->
+    NoopExec.exec_cause run proj y (Engine.resync proj y w) (Engine.build_world run proj w y) s.
+Proof. exact NoopExecProofs.exec_cone_restart. Qed.
+
+(* Fixed plan, watch flavour: edits arrive one by one, each with its pending propagation. *)
+Theorem C04_exec_cone_watch :
+  forall (run : N -> list (option N) -> list (option N) -> N -> N)
+         (proj : Engine.project) (y : Engine.sys) (es : list Engine.edit) (s : Engine.step),
+    Engine.wf proj = true -> Engine.Pre run proj y -> In s proj ->
+    NoopExec.ran run proj (fold_left (Engine.apply_edit proj) es y) (Engine.sid s) ->
+    NoopExec.exec_cause run proj y (fold_left (Engine.apply_edit proj) es y) (Engine.phase run proj y es) s.
+Proof. exact NoopExecProofs.exec_cone_watch. Qed.
+
+(* A rebuilt output with identical content stops the cone: a fully recycled step that was up to
+   date, consumes no edited source, tracks no changed variable and all of whose built inputs have
+   the same content after the rebuild as before it is NOT executed (it is checked and skipped). *)
+Theorem C04_absorbed_cone_stops :
+  forall (run : N -> list (option N) -> list (option N) -> N -> N)
+         (P P' : Engine.project) (y : Engine.sys) (w : Engine.world) (s : Engine.step),
+    Engine.wf P' = true -> Engine.Pre run P y -> In s P' ->
+    Engine.kept P P' (Engine.sid s) = true -> Engine.stt y (Engine.sid s) = Engine.Succeeded ->
+    (forall p, In p (Engine.inp s) -> Engine.is_output P' p = false -> fst w p = Engine.fs y p) ->
+    (forall n, In n (Engine.envn s) -> snd w n = Engine.ev y n) ->
+    (forall p, In p (Engine.inp s) -> Engine.is_output P' p = true ->
+               Engine.fs (Engine.rebuild_dyn run P y P' w) p = Engine.fs y p) ->
+    ~ NoopExec.ran run P' (Engine.resync P' (Engine.retarget P P' y) w) (Engine.sid s).
+Proof. exact NoopExecProofs.absorbed_cone_stops. Qed.
+
+(* x.txt(10) -> A(1) -> a(11) -> B(2) -> b(12) -> C(3, tracks variable 50) -> c(13).  With a command
+   of A that writes a constant, an edit of x executes A only; B and C are checked and skipped
+   (absorbed).  With a command that depends on its input all three are executed.  A changed
+   variable executes C only.  A plan that redefines B (another input list) executes B, and C only
+   because b changed. *)
+Definition xa_A := Engine.mkStep 1 [10] [] [11].
+Definition xa_B := Engine.mkStep 2 [11] [] [12].
+Definition xa_C := Engine.mkStep 3 [12] [50] [13].
+Definition xa_proj : Engine.project := [xa_A; xa_B; xa_C].
+Definition xa_proj' : Engine.project := [xa_A; Engine.mkStep 2 [10; 11] [] [12]; xa_C].
+Definition xa_const (id : N) (ins envs : list (option N)) (p : N) : N :=
+  if id =? 1 then 7 else Engine.mix_run id ins envs p.
+Definition xa_w (c : N) (v : option N) : Engine.world :=
+  (fun p => if p =? 10 then Some c else None, fun n => if n =? 50 then v else None).
+Definition xa_log run (P' : Engine.project) (w : Engine.world) : list (N * bool) :=
+  let st := Engine.run_dyn run [(xa_proj, xa_w 1 None)] in
+  Engine.build_log run P' P' (Engine.resync P' (Engine.retarget (fst st) P' (snd st)) w).
+Example C04_exec_cone_example :
+  Engine.wf xa_proj = true /\ Engine.wf xa_proj' = true /\
+  xa_log xa_const xa_proj (xa_w 2 None) = [(1, true); (2, false); (3, false)] /\
+  xa_log Engine.mix_run xa_proj (xa_w 2 None) = [(1, true); (2, true); (3, true)] /\
+  xa_log Engine.mix_run xa_proj (xa_w 1 (Some 5)) = [(3, true)] /\
+  xa_log Engine.mix_run xa_proj (xa_w 1 None) = [] /\
+  xa_log Engine.mix_run xa_proj' (xa_w 1 None) = [(2, true); (3, true)] /\
+  Engine.kept xa_proj xa_proj' 2 = false /\ Engine.kept xa_proj xa_proj' 3 = true.
+Proof. vm_compute. repeat split; reflexivity. Qed.
